@@ -226,6 +226,9 @@ func genRegistry(g *gen, n int, tier string, w *bufio.Writer) {
 		if !tiny && g.chance(1, 25) {
 			x.p("lateidle")
 		}
+		if !tiny && g.chance(1, 5) {
+			x.p(fmt.Sprintf("twoconn %d", g.pick(2, 2, 3)))
+		}
 		nb := 2 + g.intn(4)
 		if tiny {
 			// with a tiny limit only blocks that do not depend on a handle surviving
@@ -697,6 +700,49 @@ func (x *regRun) step(ws []string) (out string) {
 			return fmt.Sprintf("lateidle not-reaped registered=%v next-writer=%s age_ms=%d (idle for 600 ms with an idle limit of 400 ms)", still, regErr(berr), time.Since(t0).Milliseconds())
 		}
 		return "lateidle ok"
+	case "twoconn": // one connection owns two (then three) transactions; one of them ends normally; the connection goes away: the others
+		// are rolled back by the connection cleanup and the next writer begins
+		ms := time.Millisecond
+		m := transaction.NewManagerWithTTL(x.fac, nil, 60000*ms, 60000*ms, 60000*ms)
+		eng := &regTTLEngine{EngineFacade: x.fac, m: m}
+		reg := transaction.NewRegistryWithTTL(60000*ms, 60000*ms, 75, 90)
+		svc := service.NewKevoServiceServer(eng, reg, nil)
+		n := atoi(ws[1])
+		ctx := context.WithValue(bg, "peer", "pair")
+		var ids []string
+		for i := 0; i < n; i++ {
+			r, err := svc.BeginTransaction(ctx, &pb.BeginTransactionRequest{ReadOnly: true})
+			if err != nil {
+				return "twoconn begin-" + regErr(err)
+			}
+			ids = append(ids, r.TransactionId)
+		}
+		if _, err := svc.CommitTransaction(bg, &pb.CommitTransactionRequest{TransactionId: ids[0]}); err != nil {
+			return "twoconn commit-" + regErr(err)
+		}
+		svc.CleanupConnection("pair")
+		b := make(chan error, 1)
+		go func() {
+			c2, cancel := context.WithTimeout(context.WithValue(bg, "peer", "other"), 1500*ms)
+			defer cancel()
+			r2, err := svc.BeginTransaction(c2, &pb.BeginTransactionRequest{ReadOnly: false})
+			if err == nil {
+				svc.RollbackTransaction(bg, &pb.RollbackTransactionRequest{TransactionId: r2.TransactionId})
+			}
+			b <- err
+		}()
+		berr := <-b
+		left := 0
+		for _, id := range ids[1:] {
+			if _, ok := reg.Get(id); ok {
+				left++
+			}
+			svc.RollbackTransaction(bg, &pb.RollbackTransactionRequest{TransactionId: id}) // leave nothing behind
+		}
+		if berr != nil || left > 0 {
+			return fmt.Sprintf("twoconn leaked registered=%d next-writer=%s (transactions of a connection that went away were not ended)", left, regErr(berr))
+		}
+		return "twoconn ok"
 	case "idstorm": // idstorm <goroutines> <rounds>: clients begin read-only transactions in lock step; every handle is handed out once
 		g, rounds := atoi(ws[1]), atoi(ws[2])
 		begins := 0
